@@ -48,13 +48,15 @@ def process_signature(app, what, name, obj, options,
                       sig, return_annotation):
     try:
         parent, obj = fetch_dotted_name(name)
-    except AttributeError:
+    except (AttributeError, ValueError):
+        # ValueError: a top-level module, which leaves no module to import
         return sig, return_annotation
     if isinstance(obj, instancemethod): # python 2 unbound methods
         obj = obj.__func__
-    if isinstance(parent, type) and callable(obj):
-        obj = _util.safe_get(obj, object(), type(parent))
     try:
+        if isinstance(parent, type) and callable(obj):
+            # a method inherited from a C type cannot be bound to a dummy
+            obj = _util.safe_get(obj, object(), type(parent))
         sig = specifiers.signature(obj).evaluated()
     except Exception:
         # inspect.signature raises ValueError if obj is callable but it can't
